@@ -1,0 +1,153 @@
+//go:build verif
+
+package sessions
+
+// This file exists only under the build tag "verif". It exports read access to
+// unexported state for the verification harness in /verif. It adds code only;
+// nothing in the package proper refers to it.
+
+import (
+	"time"
+)
+
+// VerifSessionFields is a plain copy of a session's unexported fields.
+type VerifSessionFields struct {
+	ID          string
+	User        User
+	Created     time.Time
+	LastAccess  time.Time
+	LastIP      string
+	UAHash      uint64
+	ReferenceID string
+	Data        map[string]interface{}
+	DataNil     bool
+}
+
+// VerifFields returns a copy of the session's fields (taken under its read
+// lock; the data map is copied shallowly).
+func VerifFields(s *Session) VerifSessionFields {
+	s.RLock()
+	defer s.RUnlock()
+	f := VerifSessionFields{
+		ID:          s.id,
+		User:        s.user,
+		Created:     s.created,
+		LastAccess:  s.lastAccess,
+		LastIP:      s.lastIP,
+		UAHash:      s.lastUserAgentHash,
+		ReferenceID: s.referenceID,
+		DataNil:     s.data == nil,
+	}
+	if s.data != nil {
+		f.Data = make(map[string]interface{}, len(s.data))
+		for k, v := range s.data {
+			f.Data[k] = v
+		}
+	}
+	return f
+}
+
+// VerifNewSession builds a session object from field values.
+func VerifNewSession(f VerifSessionFields) *Session {
+	s := &Session{
+		id:                f.ID,
+		user:              f.User,
+		created:           f.Created,
+		lastAccess:        f.LastAccess,
+		lastIP:            f.LastIP,
+		lastUserAgentHash: f.UAHash,
+		referenceID:       f.ReferenceID,
+	}
+	if !f.DataNil {
+		s.data = make(map[string]interface{}, len(f.Data))
+		for k, v := range f.Data {
+			s.data[k] = v
+		}
+	}
+	return s
+}
+
+// VerifCachedIDs lists the IDs currently held by the local cache.
+func VerifCachedIDs() []string {
+	sessions.Lock()
+	defer sessions.Unlock()
+	ids := make([]string, 0, len(sessions.sessions))
+	for id := range sessions.sessions {
+		ids = append(ids, id)
+	}
+	return ids
+}
+
+// VerifCached returns the cached object for an ID without loading anything.
+func VerifCached(id string) *Session {
+	sessions.Lock()
+	defer sessions.Unlock()
+	return sessions.sessions[id]
+}
+
+// VerifDropCache forgets the cache content without saving anything (what a
+// crash does to the memory of the process).
+func VerifDropCache() {
+	sessions.Lock()
+	defer sessions.Unlock()
+	sessions.sessions = make(map[string]*Session)
+}
+
+// VerifMutexes wraps a private keyed-mutex table.
+type VerifMutexes struct{ m *mutexes }
+
+// VerifNewMutexes creates a private lock table.
+func VerifNewMutexes() *VerifMutexes { return &VerifMutexes{m: newMutexes()} }
+
+// Lock locks a key.
+func (v *VerifMutexes) Lock(key interface{}) { v.m.Lock(key) }
+
+// Unlock unlocks a key.
+func (v *VerifMutexes) Unlock(key interface{}) { v.m.Unlock(key) }
+
+// Purge asks the manager for a clean-up, as the periodic goroutine does.
+func (v *VerifMutexes) Purge() { v.m.purge <- struct{}{} }
+
+// Len returns the current size of the lock table.
+func (v *VerifMutexes) Len() int {
+	v.m.itemsMutex.Lock()
+	defer v.m.itemsMutex.Unlock()
+	return len(v.m.items)
+}
+
+// VerifSessionIDMutexes gives access to the lock table Start uses.
+func VerifSessionIDMutexes() *VerifMutexes { return &VerifMutexes{m: sessionIDMutexes} }
+
+// VerifMutexTuning sets the three tuning variables of the lock table and
+// returns their previous values.
+func VerifMutexTuning(maxSize int, cleanup, stale time.Duration) (int, time.Duration, time.Duration) {
+	a, b, c := mutexMaxCacheSize, mutexCleanupFrequency, mutexStaleMutexes
+	mutexMaxCacheSize, mutexCleanupFrequency, mutexStaleMutexes = maxSize, cleanup, stale
+	return a, b, c
+}
+
+// VerifMutexTrace, when set, receives one call per manager-loop event of any
+// lock table: ("acq"|"rel", key, locks before the event), ("tok", key, locks)
+// just before a token is sent, ("purge", key, locks of the deleted entry).
+var VerifMutexTrace func(ev string, key interface{}, locks int)
+
+// VerifMAC returns / replaces the machine address CUID hashes.
+func VerifMAC() [6]byte { return macAddress }
+
+// VerifSetCUIDState replaces the MAC address and the CUID generator state.
+func VerifSetCUIDState(mac [6]byte, t, c uint64) {
+	lastMutex.Lock()
+	defer lastMutex.Unlock()
+	macAddress = mac
+	lastTime, lastCounter = t, c
+}
+
+// VerifCUIDState returns the CUID generator state.
+func VerifCUIDState() (uint64, uint64) {
+	lastMutex.Lock()
+	defer lastMutex.Unlock()
+	return lastTime, lastCounter
+}
+
+// VerifWordLists returns the decompressed word lists.
+func VerifWordLists() (common, dict []string) { return commonPasswords, dictionary }
